@@ -331,3 +331,84 @@ func attemptAdapterAfterStalledSend(c c13case, body []byte) *attempt {
 	a.First = first
 	return a
 }
+
+// ---------------------------------------------------------------- NATS, fault while a call is pending
+
+// attemptNatsFaultWhilePending: the service is silent; T/4 after it received
+// the request, either the transport is closed from another goroutine
+// ("closedpending") or the client's broker connection is cut ("brokerlost").
+// The request was published and no response arrived in time: TIMED_OUT at T.
+func attemptNatsFaultWhilePending(env *c13env, c c13case, body []byte) *attempt {
+	fail := func(what string, err error) *attempt {
+		return &attempt{Returned: true, Harness: fmt.Sprintf("%s: %v", what, err)}
+	}
+	flags := &peerFlags{}
+	n := env.seq.Add(1)
+	subject := fmt.Sprintf("c13.svc.%d", n)
+	conn := env.client
+	var proxy *stallProxy
+	if c.Pattern == "brokerlost" {
+		var err error
+		if proxy, err = newStallProxy(strings.TrimPrefix(env.ns.URL, "nats://")); err != nil {
+			return fail("proxy", err)
+		}
+		defer proxy.close()
+		// default client behaviour: it keeps trying to reconnect (RECONNECTING)
+		if conn, err = nats.Connect("nats://"+proxy.ln.Addr().String(), nats.MaxReconnects(-1), nats.ReconnectWait(time.Second), nats.Timeout(10*time.Second)); err != nil {
+			return fail("connect through proxy", err)
+		}
+		defer conn.Close()
+	}
+	tr := frugal.NewFNatsTransport(conn, subject, fmt.Sprintf("_INBOX.c13.%d", n))
+	stop := make(chan struct{})
+	var fmu sync.Mutex
+	faulted := false
+	faultDone := make(chan struct{})
+	var once sync.Once
+	sub, err := env.peer.Subscribe(subject, func(*nats.Msg) {
+		flags.markSaw()
+		once.Do(func() {
+			go func() {
+				defer close(faultDone)
+				if !sleepOr(c.T()/4, stop) {
+					return
+				}
+				if c.Pattern == "brokerlost" {
+					proxy.close() // both sockets die: the client sees the connection drop
+					for dl := time.Now().Add(c.T() / 4); conn.Status() == nats.CONNECTED && time.Now().Before(dl); {
+						time.Sleep(time.Millisecond)
+					}
+				} else {
+					tr.Close()
+				}
+				fmu.Lock()
+				faulted = true
+				fmu.Unlock()
+			}()
+		})
+	})
+	if err != nil {
+		return fail("peer subscribe", err)
+	}
+	defer sub.Unsubscribe()
+	env.peer.Flush()
+	if err := tr.Open(); err != nil {
+		return fail("open", err)
+	}
+	conn.Flush()
+	fctx, payload, want := newCtx(c, body)
+	a := invoke(callSpec{c: c, tr: tr, fctx: fctx, payload: payload, want: want, flags: flags, release: func() {}})
+	a.RequestHex = fmt.Sprintf("%x", payload)
+	fmu.Lock()
+	a.FaultBeforeReturn = faulted
+	fmu.Unlock()
+	a.ConnStatus = conn.Status().String()
+	a.OpenAtReturn = fmt.Sprint(tr.IsOpen())
+	close(stop)
+	select {
+	case <-faultDone:
+	case <-time.After(time.Second):
+	}
+	tr.Close()
+	return a
+}
